@@ -196,6 +196,10 @@ def check_shape(model, rep):
             # clip(CHOSEN): exhaustive region table of the min/max term
             pts = [Fraction(x) for x in ('-1000', '-2', '-1.0000001', '-1', '-0.5', '0', '0.3', '1', '1.0000001', '2', '1000')]
             bad = None
+            if t is None:
+                rep.violation('C14.shape', cons, f'with one applicable rule the duty cycle assigned is `{sx.show(val)[:60]}`, '
+                              f'not the clipped proposal', m.loc)
+                continue
             try:
                 for p in pts:
                     got = eval_const(sx.ctx, t, {'CHOSEN': p})
@@ -236,6 +240,15 @@ def check_range(model, rep):
                         if par and not (isinstance(par[0].value, ast.Constant) and par[0].value.value in (1, 1.0)):
                             bad.append(f'{mem.qualname} (initial value {ast.unparse(par[0].value)})')
     rep.decide(not bad, 'C14.range', 'DCMotor.__pwm:writers', f'the private duty cycle is also written by {bad}', loc=st.loc)
+    init = model.member('DCMotor', '__init__')
+    has_init = any(isinstance(a, ast.Assign) and any(isinstance(t, ast.Attribute) and t.attr == '__pwm' for t in a.targets)
+                   and isinstance(a.value, ast.Constant) and a.value.value in (1, 1.0) for a in ast.walk(init.node))
+    rep.decide(has_init, 'C14.range', 'DCMotor.__init__:pwm', 'the constructor does not initialise the duty cycle to 1', loc=init.loc)
+    # rules registered with add_rule are the rules apply_rules asks
+    ar = model.find_member('PWMControl', 'add_rule')
+    src = ast.unparse(ar.node) if ar else ''
+    rep.decide(ar is not None and 'self.__rules.append(rule)' in src, 'C14.shape', 'PWMControl.add_rule',
+               'add_rule does not append the rule to the list apply_rules iterates over', loc=ar.loc if ar else '')
     # recorder appends the live pwm
     m = model.member('DCMotor', 'update_time_variables')
     src = ast.unparse(m.node)
